@@ -52,7 +52,7 @@ func runC06(p *Prog, r *Report) {
 	if rc.OK() {
 		body := fanoutLoop(p, r, R, "receiver", rc.fn, "recv.s.ctxs")
 		var sends Sel
-		for _, e := range rc.evs {
+		for _, e := range rc.All() {
 			if (e.Kind == "select-send" || e.Kind == "send") && strings.HasSuffix(e.What, ".recvQ") {
 				sends = append(sends, e)
 			}
@@ -60,14 +60,14 @@ func runC06(p *Prog, r *Report) {
 		okG := len(sends) == 2
 		for _, e := range sends {
 			one := Sel{e}
-			if !hasAtom(e.Guard, "sub.(*context).matches(…)") || !one.AllHeld(subMu) || (body != nil && !body[e.In.Block()]) {
+			if !hasAtom(e.Guard, "sub.(*context).matches(…)") || !one.AllHeld(subMu) || (body != nil && !inBody(body, e)) {
 				okG = false
 			}
 		}
 		r.Check(okG, R, "enqueue-iff-matches", sends.Pos(p), "every enqueue is guarded by matches(m), under the lock, inside the loop over all contexts", "a message is enqueued to a context without the guard c.matches(m) (or outside the lock/loop): "+guardsOf(sends))
 		for _, e := range sends {
 			if e.Kind == "select-send" {
-				fanoutNoBypass(p, r, R, "receiver", e.In, func(a string) bool { return a == "!sub.(*context).matches(…)" }, " (skipped only for contexts whose subscriptions do not match)")
+				fanoutNoBypass(p, r, R, "receiver", e, func(a string) bool { return a == "!sub.(*context).matches(…)" }, " (skipped only for contexts whose subscriptions do not match)")
 				break
 			}
 		}
@@ -93,21 +93,24 @@ func runC06(p *Prog, r *Report) {
 		snd := us.Ev("send", "recv.recvQ")
 		fr := us.Ev("call", "mangos.(*Message).Free")
 		r.Check(len(snd) == 1 && snd.AllGuarded("sub.(*context).matches(…)") && snd[0].Args[0] == "select#2", R, "requeue-iff-still-matches", snd.Pos(p), "re-queued only under matches(m)", "an old message is re-queued without checking that it still matches the remaining subscriptions")
-		okF := len(fr) == 1 && fr.AllGuarded("!sub.(*context).matches(…)") && len(fr[0].Guard) == 4
+		// the only conditions on the discard: the topic was found (loop/equality atoms), the
+		// old queue yielded a message (select arm), and it no longer matches
+		okF := len(fr) == 1 && fr.AllGuarded("!sub.(*context).matches(…)")
+		if okF {
+			for _, a := range fr[0].Guard {
+				switch {
+				case a == "!sub.(*context).matches(…)", strings.HasPrefix(a, "select#"), strings.HasPrefix(a, "bytes.Equal(recv.subs["):
+				case strings.Contains(a, "len(recv.subs)"), strings.HasSuffix(a, " >= 0"), strings.HasSuffix(a, " != -1"):
+				default:
+					okF = false
+				}
+			}
+		}
 		r.Check(okF, R, "dropped-iff-no-longer-matches", fr.Pos(p), "freed exactly when it no longer matches any remaining subscription", "queued messages are discarded on a condition other than !c.matches(m) (e.g. a message still covered by another subscription is lost): "+guardsOf(fr))
 		mc := us.Ev("call", "sub.(*context).matches")
 		st := us.Ev("store", "recv.subs")
 		r.Check(len(mc) == 1 && len(st) == 1 && mc.DominatedBy(st), R, "matches-after-removal", mc.Pos(p), "matching is evaluated after the topic was removed", "the queue is pruned against the old subscription list")
-		okRm := len(st) == 1 && strings.HasPrefix(st[0].Args[0], "append(recv.subs[:") && strings.Contains(st[0].Args[0], ",recv.subs[(") && strings.HasSuffix(st[0].Args[0], " + 1):])")
-		if okRm {
-			okRm = false
-			for _, a := range st[0].Guard {
-				if strings.HasPrefix(a, "bytes.Equal(recv.subs[") && strings.HasSuffix(a, ",arg1)") {
-					okRm = true
-				}
-			}
-		}
-		r.Check(okRm, R, "removes-exactly-the-equal-topic", st.Pos(p), "subs = append(subs[:i], subs[i+1:]...) for the i with bytes.Equal(subs[i], topic)", "unsubscribe does not remove exactly the one entry that is byte-equal to the topic: "+argsOf(st)+" "+guardsOf(st))
+		q.ListRemoval(R, "removes-exactly-the-equal-topic", us, "recv.subs", "", "unsubscribe does not remove exactly the one entry that is byte-equal to the topic")
 		var bv Sel
 		for _, e := range us.Ev("return", "") {
 			if e.Args[0] == "ErrBadValue" {
@@ -164,7 +167,7 @@ func runC06(p *Prog, r *Report) {
 	if pb.OK() {
 		body := fanoutLoop(p, r, R, "xpub.SendMsg", pb.fn, "recv.pipes")
 		fanoutBalanced(p, r, R, "xpub.SendMsg", pb, body, "arg1", ".sendq")
-		for _, e := range pb.evs {
+		for _, e := range pb.All() {
 			if e.Kind == "select-send" {
 				one := Sel{e}
 				r.Check(one.AllHeld("protocol/xpub.socket.Mutex"), R, "xpub.SendMsg/under-lock", p.InstrPos(e.In), "the pipe table is walked under the socket lock", "the pipe table is walked without the lock")
